@@ -211,6 +211,7 @@ fn apply_edit(sh: &mut Shared, op: &Op, log: &mut Vec<String>) -> bool {
         | Op::RemoveStep { .. }
         | Op::MoveOut { .. }
         | Op::AddOut { .. }
+        | Op::SetDefaults { .. }
         | Op::SetPoolDepth { .. } => {
             if m.disk.steps.iter().any(|s| s.generator && !s.removed) {
                 return false; // with a generator, the manifest is edited through it only
@@ -820,6 +821,18 @@ fn check_invocation(
                 }
             } else {
                 let legit = any_fail || miss || nopool_any || cyc_final || bogus || sh.io_err_fired || sh.sigint_raised;
+                // targets must be resolved against the regenerated manifest: rejecting a name
+                // before a dirty generator even ran is C17's business
+                if err.starts_with("unknown path requested") && !injected && !spec.restat && started_all.is_empty() {
+                    let dirty_gen: Vec<usize> = w1_p1
+                        .iter()
+                        .cloned()
+                        .filter(|&si| !p1.steps[si].phony && sh.model.judgeable(p1, si) && sh.model.dirty(p1, si).is_some())
+                        .collect();
+                    if !dirty_gen.is_empty() && !p1.has_cycle_in(&w1_p1) {
+                        v.push(viol("C17", "rejected-before-regen", format!("{:?} was rejected before the out-of-date manifest (s{} needs to run) was regenerated and reloaded", unknown, p1.steps[dirty_gen[0]].id)));
+                    }
+                }
                 if err.starts_with("load .n2_db") && !sh.io_err_fired {
                     if sh.model.log_torn_ever {
                         v.push(viol("C07", "log-unloadable", format!("n2 refuses to start after a torn log write: {:?}", err)));
@@ -827,7 +840,19 @@ fn check_invocation(
                         v.push(viol("C08", "log-unloadable", format!("n2 cannot load a log it wrote without any fault: {:?}", err)));
                     }
                 } else if !legit {
-                    v.push(viol("C06", "spurious-failure", format!("exit status {} with no failing command and nothing to reject: err={:?} tail={:?}", code, err, text.lines().last())));
+                    let d = format!("exit status {} with no failing command and nothing to reject: err={:?} tail={:?}", code, err, text.lines().last());
+                    v.push(viol("C06", "spurious-failure", d.clone()));
+                    if err.starts_with("dependency cycle") || err.starts_with("unknown path requested") {
+                        v.push(viol("C18", "request-rejected", format!("the steps needed by the request were not brought up to date: {}", d)));
+                    }
+                    // a recorded / reported dependency that is missing must never fail the build
+                    let miss_dep = final_wanted.iter().any(|&si| {
+                        sh.model.rec_for(&p2, si).map(|r| r.deps.iter().any(|d| !disk::exists(d))).unwrap_or(false)
+                            || sh.model.norecord_dep_missing.contains(&p2.steps[si].id)
+                    });
+                    if miss_dep {
+                        v.push(viol("C09", "missing-dep-failed-build", format!("a discovered dependency is missing and the build failed: {}", d)));
+                    }
                 }
                 if text.contains("n2: ran ") || text.contains("n2: no work to do") {
                     v.push(viol("C19", "summary-on-failure", "a success summary line was printed by a failing invocation".into()));
@@ -869,7 +894,9 @@ fn check_invocation(
                             continue;
                         }
                         if let Some(r) = sh.model.dirty(&p2, si).filter(|_| sh.model.judgeable(&p2, si)) {
-                            v.push(viol("C05", "not-kept-going", format!("s{} left out of date ({}) although it is not downstream of a failure and the -k budget was not reached", s.id, r)));
+                            let d = format!("s{} left out of date ({}) although it is not downstream of a failure and the -k budget was not reached", s.id, r);
+                            v.push(viol("C05", "not-kept-going", d.clone()));
+                            v.push(viol("C06", "stopped-early", format!("n2 stopped although more could run: {}", d)));
                         }
                     }
                 }
@@ -949,10 +976,34 @@ fn check_invocation(
     }
 
     // ---- the same disagreement seen in a context another property speaks about
-    let structural = ["respell_manifest", "add_step", "remove_step", "move_output", "add_output", "pool_depth"];
+    let structural = ["respell_manifest", "add_step", "remove_step", "move_output", "add_output", "pool_depth", "set_defaults"];
     let only_structural = !sh.model.edits_since_invoke.is_empty() && sh.model.edits_since_invoke.iter().all(|e| structural.contains(e));
     let near_tear = sh.model.inv_since_tear.map(|n| n <= 1).unwrap_or(false);
     let mut extra = Vec::new();
+    // a header dropped from a step's latest report must stop triggering it (C09)
+    for (sid, d) in &sh.started_dirty {
+        if d.is_some() {
+            continue;
+        }
+        for p in [&p2, p1] {
+            if let Some(si) = p.step_by_id(*sid) {
+                let st = &p.steps[si];
+                let cur: Vec<String> = sh.model.rec_for(p, si).map(|r| r.deps.clone()).unwrap_or_default();
+                let dropped: Vec<String> = sh
+                    .model
+                    .recs
+                    .iter()
+                    .filter(|r| !r.outs.is_empty() && r.outs.iter().all(|o| st.outs.contains(o)))
+                    .flat_map(|r| r.deps.iter().cloned())
+                    .filter(|d| !cur.contains(d) && !st.exp.contains(d) && !st.imp.contains(d))
+                    .collect();
+                if sh.model.edited_files_since_invoke.iter().any(|f| dropped.contains(f)) {
+                    extra.push(viol("C09", "dropped-dep-still-triggers", format!("s{} was re-run after an edit of a file that its latest successful run no longer reported as a dependency", sid)));
+                }
+                break;
+            }
+        }
+    }
     for x in &v {
         let dirtyish = matches!(
             (x.prop, x.code.as_str()),
@@ -970,6 +1021,9 @@ fn check_invocation(
         }
         if x.prop == "C05" && x.code == "ancestor-failed" {
             extra.push(viol("C01", "ancestor-failed", x.detail.clone()));
+        }
+        if x.prop == "C03" && x.code == "started-clean" && sh.model.edits_since_invoke.is_empty() && sh.model.prev_exit0 {
+            extra.push(viol("C08", "loaded-differs-from-recorded", format!("nothing at all was edited since the previous successful invocation, yet: {}", x.detail)));
         }
     }
     v.extend(extra);
@@ -995,6 +1049,8 @@ pub fn run_scenario(sc: &Scenario, sandbox: &Sandbox, verbose: bool) -> RunResul
         content_unknown: false,
         inv_since_tear: None,
         edits_since_invoke: vec![],
+        edited_files_since_invoke: vec![],
+        prev_exit0: false,
         norecord_dep_missing: BTreeSet::new(),
     };
     for i in 0..model.disk.srcs.len() {
@@ -1071,6 +1127,8 @@ pub fn run_scenario(sc: &Scenario, sandbox: &Sandbox, verbose: bool) -> RunResul
                 res.log.push(line);
                 let mut v = check_invocation(&mut s, &p1, spec, &outcome, &stdout);
                 s.model.edits_since_invoke.clear();
+                s.model.edited_files_since_invoke.clear();
+                s.model.prev_exit0 = matches!(outcome, Outcome::Exit(0, _)) && !s.io_err_fired && !s.crash_fired && !spec.restat;
                 if !(matches!(outcome, Outcome::Crash) || s.dbfault_fired) {
                     if let Some(n) = &mut s.model.inv_since_tear {
                         *n += 1;
@@ -1122,6 +1180,14 @@ pub fn run_scenario(sc: &Scenario, sandbox: &Sandbox, verbose: bool) -> RunResul
                 if applied {
                     s.stats.bump(&format!("edit.{}", op_name(op)));
                     s.model.edits_since_invoke.push(op_name(op));
+                    match op {
+                        Op::EditSrc { src, .. } | Op::TouchSrc { src } | Op::OddMtime { src, .. } | Op::DelSrc { src } | Op::RestoreSrc { src } | Op::ToggleInc { src, .. } | Op::SetIncs { src, .. } => {
+                            if let Some(n) = s.model.disk.srcs.get(*src).map(|x| x.name.clone()) {
+                                s.model.edited_files_since_invoke.push(n);
+                            }
+                        }
+                        _ => {}
+                    }
                 }
                 res.log.extend(log);
             }
@@ -1164,6 +1230,7 @@ pub fn op_name(op: &Op) -> &'static str {
         Op::MoveOut { .. } => "move_output",
         Op::AddOut { .. } => "add_output",
         Op::SetPoolDepth { .. } => "pool_depth",
+        Op::SetDefaults { .. } => "set_defaults",
         Op::DeleteDb => "delete_log",
         Op::TruncDb { .. } => "truncate_log",
         Op::SetVariant { .. } => "generator_input",
